@@ -111,7 +111,7 @@ func run(t *testing.T, r *rep.Report, c cfg, lens []int) {
 			}
 		}()
 		synctest.Test(t, func(*testing.T) {
-			w, err := vtx.NewWorld(vtx.Config{Stream: c.stream, MTU: c.mtu}, []string{"c1"}, []string{"A", "B"})
+			w, err := vtx.NewWorld(vtx.Config{Stream: c.stream, MTU: c.mtu}, []string{"c1"}, []string{"A", "A2", "B"})
 			if err != nil {
 				r.Violate(rep.Violation{Oracle: "harness", Signature: "harness:newworld", Detail: err.Error()})
 
@@ -129,8 +129,15 @@ func run(t *testing.T, r *rep.Report, c cfg, lens []int) {
 			}
 			c1 := w.C["c1"]
 			relay := x.M.Allocs["c1"].Relay
-			pa, pb := w.P["A"], w.P["B"]
+			pa, pb, pa2 := w.P["A"], w.P["B"], w.P["A2"]
+			// the permission was installed naming A's port; A2 shares the IP and is therefore permitted too,
+			// and must be attributed with its own port
+			lens = append(append([]int{}, lens...), -1) // -1: final small probe, delivery mandatory
 			for _, l := range lens {
+				final := l < 0
+				if final {
+					l = 10
+				}
 				pl := payload(c.content, l)
 				copies := 1
 				if l <= 5 {
@@ -142,9 +149,10 @@ func run(t *testing.T, r *rep.Report, c cfg, lens []int) {
 					c1.Send(wire.ChannelData(0x4000, pl, c.stream))
 					_, _ = pa.Sock.WriteTo(pl, relay)
 					_, _ = pb.Sock.WriteTo(pl, relay)
+					_, _ = pa2.Sock.WriteTo(pl, relay)
 				}
 				synctest.Wait()
-				r.Evaluations += int64(4 * copies)
+				r.Evaluations += int64(5 * copies)
 				got := w.Collect()
 				seen := map[string]int{}
 				for _, d := range got {
@@ -154,6 +162,8 @@ func run(t *testing.T, r *rep.Report, c cfg, lens []int) {
 						path = "send->peer"
 					case d.At == "B" && d.Kind == "udp":
 						path = "chandata->peer"
+					case d.At == "c1" && d.Kind == "data" && d.Peer == pa2.Addr.String():
+						path = "peer(same-ip-other-port)->data-indication"
 					case d.At == "c1" && d.Kind == "data":
 						path = "peer->data-indication"
 					case d.At == "c1" && d.Kind == "chan":
@@ -198,8 +208,14 @@ func run(t *testing.T, r *rep.Report, c cfg, lens []int) {
 						}
 					}
 				}
-				for _, path := range []string{"send->peer", "chandata->peer", "peer->data-indication", "peer->chandata"} {
+				for _, path := range []string{"send->peer", "chandata->peer", "peer->data-indication", "peer->chandata", "peer(same-ip-other-port)->data-indication"} {
 					n := seen[path]
+					if final && n != copies {
+						// a 10-byte datagram is never "too large to be relayed whole": after whatever came before,
+						// relaying must still work on every path
+						r.Violate(rep.Violation{Oracle: "c05", Signature: "small-datagram-not-relayed:" + path,
+							Detail: fmt.Sprintf("%s: after lengths %d..%d a 10-byte datagram was delivered %d times on %s", c, lens[0], lens[len(lens)-2], n, path)})
+					}
 					if n > copies {
 						r.Violate(rep.Violation{Oracle: "c05", Signature: "duplicated:" + path, Detail: fmt.Sprintf("%s len=%d: %d deliveries for %d sent", c, l, n, copies)})
 					}
